@@ -6,7 +6,7 @@ import json, os, re, shutil, glob, sys
 out_root = "/verif/seeded"
 os.makedirs(out_root, exist_ok=True)
 rows = []
-dirs = [(d, "") for d in sorted(glob.glob("/tmp/seed_out/C??/[0-9]"))] + [(d, "r2") for d in sorted(glob.glob("/tmp/seed_out2/C??/[0-9]"))]
+dirs = [(d, "") for d in sorted(glob.glob("/tmp/seed_out/C??/[0-9]"))] + [(d, "r2") for d in sorted(glob.glob("/tmp/seed_out2/C??/[0-9]"))] + [(d, "r3") for d in sorted(glob.glob("/tmp/seed_out3/C??/[0-9]"))]
 for d, rnd in dirs:
     pid = os.path.basename(os.path.dirname(d)); k = rnd + os.path.basename(d)
     ev = os.path.join(d, "eval.txt")
